@@ -87,6 +87,8 @@ pub fn observe_value(v: Value, names: &Names) -> Ob {
 pub struct Host {
     pub log: Vec<(String, Vec<Ob>)>,
     pub names: Rc<Names>,
+    /// violations noticed by host functions themselves (stack heights around re-entry)
+    pub checks: Vec<String>,
 }
 
 type HR = Result<Value, ExecutionErrorPayload>;
@@ -133,20 +135,33 @@ fn n_pack2(vm: &mut Vm<Host>, a: Value, b: Value) -> HR {
     table.insert(Value::Integer(1), b)?;
     Ok(Value::Object(t.into_inner()))
 }
+/// pushes the arguments, re-enters the script and checks that afterwards the value stack and the
+/// call stack are exactly as before the call (the result is handed back separately)
+fn reenter(vm: &mut Vm<Host>, name: &str, f: Value, args: &[Value]) -> HR {
+    let (h0, d0) = (cao_lang::verif::vm_stack_len(vm), cao_lang::verif::vm_call_depth(vm));
+    for a in args {
+        vm.stack_push(*a)?;
+    }
+    let r = vm.run_function(f);
+    if r.is_ok() {
+        let (h1, d1) = (cao_lang::verif::vm_stack_len(vm), cao_lang::verif::vm_call_depth(vm));
+        if h1 != h0 || d1 != d0 {
+            vm.auxiliary_data.checks.push(format!("{name}: value stack height {h0} -> {h1}, call depth {d0} -> {d1} across a successful run_function with {} pushed argument(s)", args.len()));
+        }
+    }
+    r
+}
 fn n_reenter0(vm: &mut Vm<Host>, f: Value) -> HR {
     record(vm, "reenter0", &[f]);
-    vm.run_function(f)
+    reenter(vm, "reenter0", f, &[])
 }
 fn n_reenter1(vm: &mut Vm<Host>, f: Value, a: Value) -> HR {
     record(vm, "reenter1", &[f, a]);
-    vm.stack_push(a)?;
-    vm.run_function(f)
+    reenter(vm, "reenter1", f, &[a])
 }
 fn n_reenter2(vm: &mut Vm<Host>, f: Value, a: Value, b: Value) -> HR {
     record(vm, "reenter2", &[f, a, b]);
-    vm.stack_push(a)?;
-    vm.stack_push(b)?;
-    vm.run_function(f)
+    reenter(vm, "reenter2", f, &[a, b])
 }
 
 pub fn register_natives(vm: &mut Vm<Host>, natives: &[NativeSpec]) {
@@ -263,6 +278,7 @@ pub struct RealOutcome {
     pub panic: Option<String>,
     pub instr_count: u64,
     pub clear_panic: Option<String>,
+    pub host_checks: Vec<String>,
 }
 
 pub fn compile_real(m: &ir::Module) -> (CompileOutcome, Option<CaoCompiledProgram>) {
@@ -276,7 +292,7 @@ pub fn compile_real(m: &ir::Module) -> (CompileOutcome, Option<CaoCompiledProgra
 
 pub fn new_vm(m: &ir::Module, natives: &[NativeSpec], cfg: &RunCfg) -> Vm<'static, Host> {
     let names = Rc::new(names_of(m, natives));
-    let mut vm = Vm::new(Host { log: Vec::new(), names }).expect("Vm::new");
+    let mut vm = Vm::new(Host { log: Vec::new(), names, checks: Vec::new() }).expect("Vm::new");
     vm.max_instr = cfg.max_instr;
     if cfg.mem_limit != 400 * 1024 || cfg.stack != 256 || cfg.call_stack != 256 {
         vm.runtime_data = RuntimeData::new(cfg.mem_limit, cfg.stack, cfg.call_stack).expect("RuntimeData::new");
@@ -302,6 +318,7 @@ pub fn observe_run(vm: &Vm<Host>, program: &CaoCompiledProgram, names: &[String]
         }
     }
     out.log = vm.auxiliary_data.log.clone();
+    out.host_checks = vm.auxiliary_data.checks.clone();
     out.instr_count = cao_lang::verif::instr_count();
     out
 }
